@@ -221,7 +221,7 @@ func (e *Engine) solveObligation(o *Obligation) {
 		}
 		if r.status == "unsat" {
 			o.Status, o.Solver, o.Time = "unsat", r.solver+"(qf)", r.time
-			os.Remove(qf)
+			rmq(qf)
 			return
 		}
 		if r.status == "sat" {
@@ -234,13 +234,13 @@ func (e *Engine) solveObligation(o *Obligation) {
 				return
 			}
 		}
-		os.Remove(qf)
+		rmq(qf)
 	}
 	if !o.ExpectSat {
 		// step 2: the full query with a short budget (most discharge well under a second)
 		ff := e.writeQuery(o.Decls, o.PC, o.Goal, nil)
 		r := runSolver(solvers[0], ff, 2)
-		os.Remove(ff)
+		rmq(ff)
 		if r.status == "unsat" {
 			o.Status, o.Solver, o.Time = "unsat", r.solver, r.time
 			return
@@ -249,7 +249,7 @@ func (e *Engine) solveObligation(o *Obligation) {
 		// contract-level quantified facts; rescues goals on which E-matching wanders
 		lf := e.writeQueryL(o.Decls, o.PC, o.Goal, nil, false, true)
 		r = runSolver(solvers[0], lf, 3)
-		os.Remove(lf)
+		rmq(lf)
 		if r.status == "unsat" {
 			o.Status, o.Solver, o.Time = "unsat", r.solver+"(light)", r.time
 			return
@@ -265,7 +265,7 @@ func (e *Engine) solveObligation(o *Obligation) {
 			return
 		}
 		o.Status, o.Solver, o.Time = "sat", cand.solver+"(qf; not refuted with quantifiers)", cand.time
-		os.Remove(file)
+		rmq(file)
 		return
 	}
 	r := e.solveFile(file, e.solverTimeout)
@@ -291,7 +291,7 @@ func (e *Engine) solveObligation(o *Obligation) {
 		o.QueryFile = file
 		return
 	}
-	os.Remove(file)
+	rmq(file)
 }
 
 func firstLines(s string, n int) string {
@@ -387,11 +387,18 @@ func (e *Engine) solveBatch(checks []candCheck) []batchResult {
 			if os.Getenv("GOVC_HOUDINI") != "" && r.status != "unsat" {
 				fmt.Fprintf(os.Stderr, "HOUDINI query kept: %s (%s)\n", file, r.status)
 			} else {
-				os.Remove(file)
+				rmq(file)
 			}
 			res[i] = batchResult{idx: c.idx, status: r.status}
 		}(i, c)
 	}
 	wg.Wait()
 	return res
+}
+
+// rmq removes a query file unless GOVC_KEEPALL is set (debugging: keep the queries of discharged obligations too).
+func rmq(f string) {
+	if os.Getenv("GOVC_KEEPALL") == "" {
+		os.Remove(f)
+	}
 }
